@@ -13,3 +13,36 @@ def fill(claim, na):
           "T1 Automat/ast semantics; T3 the environment table (who may call the client and when) is hand-written and reviewed; "
           "dilation Manager internals are outside this product (C17/C11 rules cover them)",
           "DESIGN.md 2.1, 3, 4/C14")
+    claim("C08",
+          "Automat table rules + typestate analysis of the composed client (safety invariants, EF-reachability of closed, verdict/mood consistency) + CFG must-pass-through",
+          "Decided on the source: (tables) close declared in every Boss state; each live state's close/scared/rx_error/rx_unwelcome "
+          "row stores the documented verdict and mood; closed is delivered exactly once on each row entering the closed state "
+          "and on no other row; Nameplate/Mailbox signal done only on the server's released/closed or from never-acquired "
+          "states; the connector is stopped only after close+both done. (product) over every explored schedule: closed at most "
+          "once, nothing after it, at an orderly closed no claim and no open mailbox remain at the server and the connector has "
+          "stopped, every state after close() can still reach closed, the verdict stored matches what was observed, the mood "
+          "sent matches the verdict, server error / error welcome / close() always leave the Boss closing. (CFG) closed() "
+          "terminates every observer. Not decided: real time; Boss.error exits are exempt from the release clause.",
+          "T1; T3 environment table; 'server holds a claim/mailbox' is modelled from the requests the client sent (claim/open) "
+          "and the responses the environment delivered (released/closed)",
+          "DESIGN.md 4/C08")
+    claim("C09",
+          "Automat table rules (connectivity twins, re-issue) + CFG ordering rule + typestate invariant over the reachable product + attribute write-discipline",
+          "Decided on the source: every disconnected state declares connected and every connected state lost (no outputs); each "
+          "state awaiting a server response re-sends its request when the connection returns; rows entering Mailbox S2B open "
+          "and re-submit every un-echoed message; ws_open binds before notifying all four machines and ws_close tells the same "
+          "four; over the explored product 'connected & awaiting => request outstanding on THIS connection' and 'S2B => opened "
+          "on this connection' hold in every state; _pending_outbound is only written by queue/dequeue. Not decided: the "
+          "two-party liveness claim (key exchange completes once both stay connected).",
+          "T1; T3 environment: responses only answer requests sent on the current connection; a lost connection loses in-flight requests",
+          "DESIGN.md 4/C09")
+    claim("C18",
+          "typestate analysis (event order / multiplicity monitors over the product) + table output-order rule + CFG ordering and must-pass-through rules on the observers",
+          "Decided on the source: in every explored schedule got_code <= got_key <= got_verifier <= versions/messages, each of the "
+          "four one-shot events at most once, nothing after closed; Receive's first-good row lists verified-key, happy, verifier, "
+          "message in that order; compute_key tells the Boss, then sends version, then keys Receive; Send transmits only with a "
+          "verified key and drains in order; Mailbox re-submits in submission order; the Deferred front-end delivers one-shots "
+          "through fire_if_not_fired; closed() terminates every observer with a Failure on every path; observers test the error "
+          "before the buffer. Not decided: the eventual-send timing inside one reactor turn.",
+          "T1; T3; EventualQueue FIFO is trusted",
+          "DESIGN.md 4/C18")
